@@ -204,6 +204,11 @@ func isLiteralInit(e ast.Expr) bool {
 					return true
 				}
 			}
+			if sel, isSel := x.Fun.(*ast.SelectorExpr); isSel {
+				if id, isId := sel.X.(*ast.Ident); isId && id.Name == "errors" && sel.Sel.Name == "New" {
+					return false // errors.New("...") yields a non-nil error; arguments need no inspection
+				}
+			}
 			ok = false
 		case *ast.FuncLit:
 			ok = false
@@ -263,9 +268,6 @@ func (eng *Engine) writtenOutsideInit(pkg *packages.Package, v *types.Var) bool 
 func (ex *exec) lemma(st *State, goal *Term, label string, pos token.Pos) bool {
 	if goal == True {
 		return true
-	}
-	if goal == False {
-		return false
 	}
 	hyps := st.pc
 	if ex.lemmaDepth > 0 {
@@ -347,7 +349,7 @@ func (ex *exec) applyContract(st *State, ct *Contract, fn *types.Func, recv Valu
 		if p.Label != "" {
 			lbl += "." + p.Label
 		}
-		ex.oblige(st, "pre", lbl, g, call.Pos())
+		ex.runtimeCheck(st, "pre", lbl, g, call.Pos())
 	}
 	// havoc assigns
 	for _, a := range ct.Assigns {
@@ -360,6 +362,33 @@ func (ex *exec) applyContract(st *State, ct *Contract, fn *types.Func, recv Valu
 		var v Value
 		if i == 0 && ct.Returns != nil {
 			v = env.eval(ct.Returns)
+		} else if i == 0 && len(ct.ReturnsIf) > 0 {
+			// the result is an existing value under a condition, otherwise fresh:
+			// the condition must be decided at this call site (case-split the caller if not)
+			decided := false
+			for k, rc := range ct.ReturnsIf {
+				c := env.toBool(env.eval(rc.Expr))
+				c = ex.simplifyUnderPC(st, c)
+				if c != True && c != False {
+					if ex.lemma(st, c, "returns_if", call.Pos()) {
+						c = True
+					} else if ex.lemma(st, Not(c), "returns_if", call.Pos()) {
+						c = False
+					}
+				}
+				if c == True {
+					v = env.eval(ct.ReturnsIfVal[k])
+					decided = true
+					break
+				}
+				if c != False {
+					ex.fail(call.Pos(), "call to %s: returns_if condition undecided at the call site; add a case split to the caller", ct.Key)
+				}
+			}
+			if !decided {
+				v = ex.freshValue(st, rv.Type(), fn.Name()+".result", 0)
+				markFresh(st, v)
+			}
 		} else {
 			nm := rv.Name()
 			if nm == "" {
@@ -675,6 +704,7 @@ func (ex *exec) runCase(fi *FuncInfo, ct *Contract, ac aliasCase) {
 		}
 		fr.loopOrd = 0
 		fr.entry = cst.clone()
+		ex.allowed = nil
 		outs := ex.execBlock(cst, fi.Decl.Body.List)
 		for _, o := range outs {
 			switch o.kind {
@@ -731,16 +761,58 @@ func (ex *exec) checkPost(o *Outcome, fi *FuncInfo, ct *Contract, fr *frame) {
 			extra[n] = v
 		}
 	}
+	proved := map[string]*Term{}
 	for _, e := range ct.Ensures {
 		env := ex.newSpecEnv(st, fr, extra)
 		env.witness = ct.Witness
 		g := env.toBool(env.eval(e.Expr))
-		ex.oblige(st.clone(), "post", e.Label, g, o.pos)
+		ost := st.clone()
+		if len(e.From) > 0 {
+			// structured proof step: only the entry assumptions and the named, already
+			// established postconditions are used as hypotheses
+			ost.pc = append([]*Term{}, fr.entry.pc...)
+			for _, f := range e.From {
+				if f == "-" {
+					continue
+				}
+				p, ok := proved[f]
+				if !ok {
+					ex.fail(o.pos, "ensures %s: [from %s] refers to no earlier labelled ensures", e.Label, f)
+				}
+				ost.assume(p)
+			}
+		}
+		ex.oblige(ost, "post", e.Label, g, o.pos)
+		if e.Label != "" {
+			proved[e.Label] = g
+		}
 	}
 	if ct.Returns != nil && len(fr.results) > 0 {
 		env := ex.newSpecEnv(st, fr, extra)
 		want := env.eval(ct.Returns)
 		ex.oblige(st.clone(), "post", "returns", env.valuesEqualSpec(extra["result"], want), o.pos)
+	}
+	for k, rc := range ct.ReturnsIf {
+		env := ex.newSpecEnv(st, fr, extra)
+		c := env.toBool(env.eval(rc.Expr))
+		want := env.eval(ct.ReturnsIfVal[k])
+		ex.oblige(st.clone(), "post", "returns_if", Implies(c, env.valuesEqualSpec(extra["result"], want)), o.pos)
+	}
+	if len(ct.ReturnsIf) > 0 {
+		// otherwise the result must be freshly allocated
+		env := ex.newSpecEnv(st, fr, extra)
+		var cs []*Term
+		for _, rc := range ct.ReturnsIf {
+			cs = append(cs, env.toBool(env.eval(rc.Expr)))
+		}
+		fresh := False
+		switch r := extra["result"].(type) {
+		case *Slice:
+			fresh = BoolC(r.Base.Obj == nil || r.Base.Obj.fresh)
+		case *Ptr:
+			fresh = BoolC(r.Obj == nil || r.Obj.fresh)
+		}
+		ex.oblige(st.clone(), "post", "returns_fresh", Or(Or(cs...), fresh), o.pos)
 	}
 	ex.checkFrame(st, fi, ct, fr, extra, o.pos)
 }
@@ -953,6 +1025,43 @@ func (eng *Engine) SolveAll(obs []*Oblig) {
 		}()
 	}
 	wg.Wait()
+	// return-path covers: a case split makes some return paths infeasible, which is fine;
+	// it is a vacuity failure only if *every* return path of a function case is infeasible
+	type grp struct{ all, vac []*Oblig }
+	groups := map[string]*grp{}
+	for _, o := range obs {
+		if o.Kind == "cover" && o.Label == "return" {
+			k := o.Func + "@" + tagOf(o.Name)
+			g := groups[k]
+			if g == nil {
+				g = &grp{}
+				groups[k] = g
+			}
+			g.all = append(g.all, o)
+			if o.Res.Verdict == Refuted {
+				g.vac = append(g.vac, o)
+			}
+		}
+	}
+	for _, g := range groups {
+		if len(g.vac) < len(g.all) {
+			for _, o := range g.vac {
+				o.Res.Verdict = Proved
+				o.Res.Detail = "infeasible return path (other return paths of this case are reachable)"
+			}
+		}
+	}
+}
+
+func tagOf(name string) string {
+	if i := strings.Index(name, "@"); i >= 0 {
+		t := name[i+1:]
+		if j := strings.Index(t, "#"); j >= 0 {
+			t = t[:j]
+		}
+		return t
+	}
+	return ""
 }
 
 // applyFact: built-in arithmetic rules that the solvers do not find on their own.
